@@ -59,6 +59,8 @@ MIN_COUNTERS = {
     'enc_multichannel': 100, 'enc_nested_curves_with_name': 30,
     'ctor_points_equal_times': 50, 'ctor_points_drop': 20,
     'ctor_points_same_point_mixed_curves': 5,
+    'ctor_calls_with_list_parameter': 100, 'enc_single_level': 20,
+    'enc_with_offset': 100,
     'reuse_histories': 500, 'reuse_envgen_side_checks': 300,
     'reuse_interpolation_side_checks': 200, 'reuse_at_checks': 500,
     'reuse_defs_decoded': 200,
@@ -147,10 +149,16 @@ def run_env(spec, acc):
 
     for i in iter_cases(spec):
         rng = case_rng(spec['seed'], 'C19', 'env', i)
-        a = G.gen_env_args(rng)
+        a = G.gen_env_args(rng, single_ok=True)
         call = dict(levels=a['levels'], times=a['times'], curves=a['curves'],
                     release_node=a['release_node'], loop_node=a['loop_node'])
         snap = copy.deepcopy(call)
+        # "offset: only applies in IEnvGen": the EnvGen encoding must not
+        # depend on it; client-side evaluation with an offset is not judged
+        # (the documentation leaves open whether _at counts from the offset)
+        offset = rng.choice([0, 0, 0, 0, 0, 1, 0.5, -2.0])
+        if offset:
+            call['offset'] = offset
         nseg = len(a['levels']) - 1
         wrapped_t = isinstance(a['times'], list) and len(a['times']) < nseg
         wrapped_c = isinstance(a['curves'], list) and len(a['curves']) < nseg
@@ -159,12 +167,14 @@ def run_env(spec, acc):
         nodes = a['release_node'] is not None or a['loop_node'] is not None
         acc.case(h64(repr(snap)), nontrivial=nseg >= 2 and (
             wrapped_t or wrapped_c or mixed_c or nodes))
-        witness = {'case': i, 'args': snap}
+        witness = {'case': i, 'args': snap, 'offset': offset}
         # --- encoding
         try:
             env = Env(**call)
+            call.pop('offset', None)
             got = _fmt_to_lists(env._envgen_format())
         except Exception as e:
+            call.pop('offset', None)
             name = _refused_shape(e)
             if name:
                 acc.count('documented_shape_refused')
@@ -208,8 +218,16 @@ def run_env(spec, acc):
                           dict(witness, after=call))
         if acc.want_sample() and nseg >= 2 and (wrapped_t or wrapped_c):
             acc.sample({'case': i, 'args': snap, 'encoding': got})
+        if offset:
+            acc.count('enc_with_offset')
+        if nseg == 0:
+            acc.count('enc_single_level')
+            continue
+        if a['release_node'] is not None and not 0 <= a['release_node'] < nseg:
+            acc.count('enc_node_outside_segments')
         # --- evaluation
-        check_at(acc, M, G, rng, env, exp, a, witness)
+        if not offset:
+            check_at(acc, M, G, rng, env, exp, a, witness)
         # --- definition bytes
         if i % 4 == 0:
             check_def(acc, M, scgf, SynthDef, EnvGen, Out, Env, snap, exp,
@@ -343,6 +361,14 @@ def check_def(acc, M, scgf, SynthDef, EnvGen, Out, Env, snap, exp, witness):
 
 # ---------------------------------------------------------------------------
 
+def _list_product(name, kw):
+    """adsr / dadsr with a list-valued (multichannel) peak or sustain level:
+    the one place where a constructor multiplies two of its parameters."""
+    return name in ('adsr', 'dadsr') and (
+        isinstance(kw.get('peak_level'), list)
+        or isinstance(kw.get('sustain_level'), list))
+
+
 def run_ctor(spec, acc):
     from vf import model_env as M, c19_gen as G
     from sc3.synth.envelope import Env
@@ -353,6 +379,9 @@ def run_ctor(spec, acc):
         snap = copy.deepcopy(kw)
         acc.case(h64((name, repr(snap))), nontrivial=len(kw) > 0)
         acc.count(f'ctor_calls_{name}')
+        if any(isinstance(v, list) for k, v in kw.items()
+               if k not in ('levels', 'times', 'pairs', 'xyc', 'curves')):
+            acc.count('ctor_calls_with_list_parameter')
         witness = {'case': i, 'constructor': name, 'kwargs': snap}
         ctor = getattr(Env, name)
         try:
@@ -364,6 +393,9 @@ def run_ctor(spec, acc):
                 acc.count('documented_shape_refused')
                 acc.violation(f'C19/shape-name-refused/{shape}',
                               dict(witness, error=str(e)))
+            elif _list_product(name, kw):
+                acc.violation(f'C19/constructor-list-parameter/{name}',
+                              dict(witness, tb=short_tb(e)))
             else:
                 acc.violation(
                     f'C19/constructor-raises/{name}/{type(e).__name__}',
@@ -403,8 +435,10 @@ def run_ctor(spec, acc):
                 acc.count('ctor_points_' + flag)
         diff = M.same_arrays(got, want)
         if diff:
-            acc.violation(f'C19/constructor-breakpoints/{name}/{diff}',
-                          dict(witness, got=got, expected=want))
+            key = f'C19/constructor-breakpoints/{name}/{diff}'
+            if _list_product(name, kw):
+                key = f'C19/constructor-list-parameter/{name}'
+            acc.violation(key, dict(witness, got=got, expected=want))
             continue
         if acc.want_sample() and name in ('adsr', 'pairs', 'dadsr'):
             acc.sample({'case': i, 'constructor': name, 'kwargs': snap,
